@@ -82,8 +82,14 @@ impl Check for MergeAll {
             if order_ok(&ex, 6) {
                 merged::<M6>(c).judge(&ex, o)?;
             }
+            if order_ok(&ex, 7) {
+                merged::<M7>(c).judge(&ex, o)?;
+            }
             if order_ok(&ex, 8) {
                 merged::<M8>(c).judge(&ex, o)?;
+            }
+            if order_ok(&ex, 9) {
+                merged::<M9>(c).judge(&ex, o)?;
             }
             if order_ok(&ex, 10) {
                 merged::<M10>(c).judge(&ex, o)?;
@@ -201,7 +207,7 @@ pub fn exhaustive_cases() -> Vec<Chunked> {
 }
 
 pub fn run(cx: &Ctx) {
-    cx.set_rule("cases = (data set over the C01 domain, cut points with duplicates = empty chunks, merge order) — chunks summarised by collect(), combined by left.merge(&right) in the generated order (left chain, right chain, balanced, random), for Mean, Variance, Skewness, Kurtosis, Moments4 and harness-instantiated define_moments! orders 5, 6, 8, 10; every accessor judged against the exact statistics of the WHOLE sequence with the single-pass envelope; len() exact. Exhaustive sub-space: all sequences of length 1..4 over three 3-value alphabets x all compositions into k <= 4 contiguous possibly-empty chunks x all merge orders. Non-trivial = at least two non-empty chunks; distinct = hash of (sequence bits, cuts, merge order)");
+    cx.set_rule("cases = (data set over the C01 domain, cut points with duplicates = empty chunks, merge order) — chunks summarised by collect(), combined by left.merge(&right) in the generated order (left chain, right chain, balanced, random), for Mean, Variance, Skewness, Kurtosis, Moments4 and harness-instantiated define_moments! orders 5, 6, 7, 8, 9, 10; every accessor judged against the exact statistics of the WHOLE sequence with the single-pass envelope; len() exact. Exhaustive sub-space: all sequences of length 1..4 over three 3-value alphabets x all compositions into k <= 4 contiguous possibly-empty chunks x all merge orders. Non-trivial = at least two non-empty chunks; distinct = hash of (sequence bits, cuts, merge order)");
     cx.assume("exact oracle and envelopes as in C01; order-N types are judged only when the C04 arithmetic preconditions hold for the data (counted in classes as 'higher orders judged')");
     let all = exhaustive_cases();
     let total = all.len() as u64;
